@@ -131,10 +131,18 @@ func (k Keeper) CalculateBatchAllocation(ctx context.Context, auction types.Auct
 		mInfo.RefundMap[bidder] = reservedAmtByBidder[bidder].Sub(bidderRes.PayingAmount)
 	}
 
+	// Persist the matched flag of every bid of the auction, not only of the bids matched now:
+	// a bid that was matched at an earlier end time and is outbid in this round must not stay flagged.
+	matchedBidIds := map[uint64]bool{}
 	for _, bid := range matchRes.MatchedBids {
-		bid.SetMatched(true)
-		if err := k.Bid.Set(ctx, collections.Join(bid.AuctionId, bid.Id), bid); err != nil {
-			return mInfo, err
+		matchedBidIds[bid.Id] = true
+	}
+	for _, bid := range bids {
+		if matched := matchedBidIds[bid.Id]; bid.IsMatched != matched {
+			bid.SetMatched(matched)
+			if err := k.Bid.Set(ctx, collections.Join(bid.AuctionId, bid.Id), bid); err != nil {
+				return mInfo, err
+			}
 		}
 	}
 
